@@ -55,6 +55,15 @@ pub const FIXED: &[(&str, &str)] = &[
     ("ok-nested-default-reads-enclosing-argument", "fn v_scaled(v_k: int)->int{ fn v_in(v_x: int ?= v_k * 5)->int{ v_x } v_in() }\nfn main()->bool{ display(v_scaled(1)) == 5 && display(v_scaled(2)) == 10 && display(v_scaled(1)) == 5 }"),
     ("ok-toplevel-let-with-effect", "let v_t = display(11);\nfn main()->bool{ v_t == 11 }"),
     ("ok-local-closure-over-argument", "fn v_mk(v_k: int)->int{ let v_g = (v_x: int)->{ v_x + v_k }; v_g(1) }\nfn main()->bool{ display(v_mk(1)) == 2 && display(v_mk(5)) == 6 }"),
+    ("lambda-required-after-optional", "let v_f = (v_a: int ?= 1, v_b: int)->{v_a};\nfn main()->bool{ true }"),
+    ("fn-required-after-optional", "fn v_f(v_a: int ?= 1, v_b: int)->int{ v_a }\nfn main()->bool{ true }"),
+    ("lambda-duplicate-parameter", "let v_f = (v_a: int, v_a: int)->{v_a};\nfn main()->bool{ true }"),
+    ("lambda-unknown-parameter-type", "let v_f = (v_a: V_Nope)->{1};\nfn main()->bool{ true }"),
+    ("lambda-default-of-wrong-type", "let v_f = (v_a: int ?= \"s\")->{v_a};\nfn main()->bool{ true }"),
+    ("lambda-wrong-argument-count", "let v_f = (v_a: int)->{v_a};\nlet v_x = v_f(1, 2);\nfn main()->bool{ true }"),
+    ("lambda-wrong-argument-type", "let v_f = (v_a: int)->{v_a};\nlet v_x = v_f(\"s\");\nfn main()->bool{ true }"),
+    ("lambda-shadows-overload", "fn v_g(v_a: int)->int{ v_a }\nlet v_g = ()->{1};\nfn main()->bool{ true }"),
+    ("nested-lambda-required-after-optional", "fn main()->bool{ let v_f = ()->{ (v_a: int ?= 1, v_b: int)->{v_a} }; true }"),
     ("display-three-args", "fn main()->bool{ display(1, \"a\", \"b\") == 1 }"),
     ("display-method-three-args", "fn main()->bool{ 1.display(\"a\", 2) == 1 }"),
     ("debug-three-args", "fn main()->bool{ debug(1, \"a\", \"b\") == 1 }"),
